@@ -13,7 +13,8 @@ type fnInfo struct {
 	// ipdom[b] = index of immediate post-dominator block, -1 = virtual exit, -2 = none
 	ipdom []int
 	// liveAfterPhi[b]: bitset of value indices live right after the phis of block b
-	live [][]uint64
+	live     [][]uint64
+	loopExit map[int]bool
 }
 
 const (
@@ -254,4 +255,42 @@ func (fi *fnInfo) liveness() [][]uint64 {
 func (fi *fnInfo) liveAt(block int, ix int) bool {
 	l := fi.liveness()
 	return l[block][ix/64]&(1<<(uint(ix)%64)) != 0
+}
+
+// isLoopExit reports whether the If ending block b is a loop exit test: exactly one of its two
+// successors can reach b again.
+func (fi *fnInfo) isLoopExit(b int) bool {
+	if fi.loopExit == nil {
+		fi.loopExit = map[int]bool{}
+	}
+	if v, ok := fi.loopExit[b]; ok {
+		return v
+	}
+	blk := fi.fn.Blocks[b]
+	v := false
+	if len(blk.Succs) == 2 {
+		v = fi.reaches(blk.Succs[0].Index, b) != fi.reaches(blk.Succs[1].Index, b)
+	}
+	fi.loopExit[b] = v
+	return v
+}
+
+func (fi *fnInfo) reaches(from, to int) bool {
+	seen := make([]bool, len(fi.fn.Blocks))
+	stack := []int{from}
+	for len(stack) > 0 {
+		x := stack[len(stack)-1]
+		stack = stack[:len(stack)-1]
+		if x == to {
+			return true
+		}
+		if seen[x] {
+			continue
+		}
+		seen[x] = true
+		for _, s := range fi.fn.Blocks[x].Succs {
+			stack = append(stack, s.Index)
+		}
+	}
+	return false
 }
